@@ -7,6 +7,7 @@ lib/lpc/functional.c).  A changed C line changes the generated definition and br
 import NV.Gen.C05
 import NV.C05.Model
 import NV.C05.Exec
+import NV.C05.Lemmas
 
 namespace NV.C05
 
@@ -138,6 +139,82 @@ theorem raise_sets_catch_value_after_handler (msg : String) (m m' : M)
   have hm' : (resetGuards m).inMudlibHandler = false := hm
   simp only [raise, hc, hm', ↓reduceIte, Bool.false_eq_true]
   rw [hh]
+
+/-- the T_ERROR_HANDLER slots the model knows (`handler id` ops; `fixNamesId` for destruct_object) still exist in the source -/
+theorem tie_error_handler_slots :
+    ∀ p ∈ [("simulate.c", "fix_object_names"), ("array.c", "unique_array_error_handler"), ("array.c", "sort_array_unlink"),
+           ("mapping.c", "unique_mapping_error_handler"), ("parse.c", "parse_clean_up")], p ∈ Gen.C05.errorHandlerSlots := by decide
+
+/-- destruct_object of a vital object: slot pushed and both names recorded BEFORE the name is blanked (the model's `.vital`
+    case builds `m1` — slot + recorded names — from `m`, and blanks in `m2`); fix_object_names restores both (`runSlotHandler`) -/
+theorem tie_vital_destruct_order :
+    Gen.C05.destructRecordsNamesBeforeBlanking = true ∧ Gen.C05.fixObjectNamesRestoresBoth = true := by decide
+
+/-- no handler of a T_ERROR_HANDLER slot calls back into LPC or raises an error: running one while the stack is unwound
+    cannot start another unwinding (the model's `runSlotHandler` is a plain state update) -/
+theorem tie_error_handlers_are_leaves : Gen.C05.errorHandlersThatCallBack = [] := by decide
+
+/-- the model records the names the object had BEFORE blanking: whatever the reload does, the slot restores them -/
+theorem vital_records_before_blanking (b : Bool) (body : Prog) (m : M)
+    (hn : (if b then m.masterName else m.simulName) ≠ 0) :
+    ∃ m2 : M, execCore (.vital b body) m = vitalFinish b (if b then m.masterName else m.simulName) (exec body m2) ∧
+      m2.savedMasterName = m.masterName ∧ m2.savedSimulName = m.simulName ∧ m2.vs = Slot.handler fixNamesId :: m.vs := by
+  cases b
+  · have : (m.simulName == 0) = false := by simpa using hn
+    refine ⟨{ m with vs := Slot.handler fixNamesId :: m.vs, savedMasterName := m.masterName, savedSimulName := m.simulName, simulName := 0 }, ?_, rfl, rfl, rfl⟩
+    simp only [execCore, Bool.false_eq_true, ↓reduceIte, this]
+  · have : (m.masterName == 0) = false := by simpa using hn
+    refine ⟨{ m with vs := Slot.handler fixNamesId :: m.vs, savedMasterName := m.masterName, savedSimulName := m.simulName, masterName := 0 }, ?_, rfl, rfl, rfl⟩
+    simp only [execCore, ↓reduceIte, this, Bool.false_eq_true]
+
+/-- a destruct of a vital object whose name is blank (its reload is in progress) is refused before anything is recorded -/
+theorem vital_nested_refused (b : Bool) (body : Prog) (m : M) (hn : (if b then m.masterName else m.simulName) = 0) :
+    execCore (.vital b body) m = raise "*Destruction of vital object is already in progress." m := by
+  cases b
+  · have : (m.simulName == 0) = true := by simpa using hn
+    simp only [execCore, Bool.false_eq_true, ↓reduceIte, this]
+  · have : (m.masterName == 0) = true := by simpa using hn
+    simp only [execCore, ↓reduceIte, this]
+
+/-- unwinding a stack segment that contains the fix_object_names slot puts both names back to the recorded ones, unwinding
+    a segment without it leaves them alone -/
+theorem popN_fixNames (dv : List Slot) : ∀ (m : M) (rest : List Slot), m.vs = dv ++ rest →
+    ∃ m', popN dv.length m = some m' ∧
+      (fixNamesId ∈ handlerIds dv → m'.masterName = m.savedMasterName ∧ m'.simulName = m.savedSimulName) ∧
+      (fixNamesId ∉ handlerIds dv → m'.masterName = m.masterName ∧ m'.simulName = m.simulName) ∧
+      m'.savedMasterName = m.savedMasterName ∧ m'.savedSimulName = m.savedSimulName := by
+  induction dv with
+  | nil => intro m rest h; exact ⟨m, rfl, by simp [handlerIds], by simp [handlerIds], rfl, rfl⟩
+  | cons s dv ih =>
+    intro m rest h
+    cases s with
+    | val =>
+      have h1 : popStack m = some { m with vs := dv ++ rest } := by unfold popStack; rw [h]; rfl
+      obtain ⟨m', hp, ha, hb, hc, hd⟩ := ih { m with vs := dv ++ rest } rest rfl
+      exact ⟨m', by simp only [List.length_cons, popN, h1]; exact hp, by simpa [handlerIds] using ha, by simpa [handlerIds] using hb, hc, hd⟩
+    | handler id =>
+      have h1 : popStack m = some (runSlotHandler id { m with vs := dv ++ rest, ran := id :: m.ran }) := by
+        unfold popStack; rw [h]; rfl
+      obtain ⟨m', hp, ha, hb, hc, hd⟩ := ih (runSlotHandler id { m with vs := dv ++ rest, ran := id :: m.ran }) rest rfl
+      refine ⟨m', by simp only [List.length_cons, popN, h1]; exact hp, ?_, ?_, hc, hd⟩
+      · intro hin
+        by_cases hrest : fixNamesId ∈ handlerIds dv
+        · exact ha hrest
+        · have hid : id = fixNamesId := by
+            simp [handlerIds] at hin
+            rcases hin with h | h
+            · exact h.symm
+            · exact absurd h hrest
+          have := hb hrest
+          subst hid
+          simpa [runSlotHandler] using this
+      · intro hnin
+        have hne : ¬ fixNamesId ∈ handlerIds dv := fun h => hnin (by simp [handlerIds, h])
+        have hid : (id == fixNamesId) = false := by
+          simp [handlerIds] at hnin
+          exact beq_false_of_ne (fun h => hnin.1 h.symm)
+        have := hb hne
+        simpa [runSlotHandler, hid] using this
 
 /-- the recovery points of backend.c have the shape `runBackend` / the sweep ops mirror; error_handler switches the
     heart beat off last (the model's `hbOffStep` sits in the same three branches) -/
